@@ -30,6 +30,7 @@ type Stmt struct {
 	SM      string    `json:"sm,omitempty"`  // state machine built with StateMachineActions on this menu type
 	Raw     []byte    `json:"raw,omitempty"` // log: payload (repeated Rep times) instead of the synthetic one
 	Rep     int       `json:"rep,omitempty"`
+	Empty   bool      `json:"empty,omitempty"` // sig: signalled with an empty message (t.Error(), t.Errorf(""), panic(""))
 }
 
 // Cond is a condition on the measure of an earlier draw of the same scope.
@@ -466,8 +467,14 @@ func (x *Interp) signal(fr *frame, st *Stmt) {
 		last = fr.sc.draws[n-1].M
 	}
 	base := fmt.Sprintf("sig%d/%s/%s/m%d", st.Site, st.Kind, fr.where, last)
-	msg := base // what the library is expected to show for this failure
 	class := sigClass(st.Kind)
+	if st.Empty {
+		switch st.Kind {
+		case "Fatalf", "Fatal", "Errorf", "Error", "panicString", "panicError":
+			base = "" // a failure is a failure whatever its message
+		}
+	}
+	msg := base // what the library is expected to show for this failure
 	switch st.Kind {
 	case "FailNow":
 		msg = "(*T).FailNow() called"
@@ -582,13 +589,21 @@ func doSignal(t *rapid.T, kind, msg string, n int) {
 	case "Fatalf":
 		t.Fatalf("%s", msg)
 	case "Fatal":
-		t.Fatal(msg)
+		if msg == "" && n%2 == 0 {
+			t.Fatal()
+		} else {
+			t.Fatal(msg)
+		}
 	case "FailNow":
 		t.FailNow()
 	case "Errorf":
 		t.Errorf("%s", msg)
 	case "Error":
-		t.Error(msg)
+		if msg == "" && n%2 == 0 {
+			t.Error()
+		} else {
+			t.Error(msg)
+		}
 	case "Fail":
 		t.Fail()
 	case "panicString":
